@@ -72,6 +72,11 @@ CLAIMED["C13"] = ("exploration",
    "A Reset that returns an error is counted, not judged. Writable bind mounts are not part of Reset's contract (doc.go: tmpfs work/tmp directories).",
    "property-based testing (rapid): generated programs + host/later-program observation; round-trip and immutability oracle for memfd", "§3 C13")
 
+CLAIMED["C19"] = ("exploration",
+   "Raw socket: generated histories of sends/receives (payload 1..70000 bytes around 32 KiB/64 KiB, 0..260 descriptors around the kernel limit 253, credentials none/self/arbitrary, receive buffers of 1/len-1/len/32K/64K, receiver with/without SO_PASSCRED, up to 3 messages in flight) against a FIFO queue model: payload byte-for-byte, descriptors by fstat identity in order and close-on-exec, credentials as specified, too-small buffers and too many descriptors give an error and nothing truncated is delivered, descriptor count returns to baseline. Framed layer (tag-verif export of the constructor): sequences of real cmd/reply values incl. oversize and too-many-descriptor messages, with/without a small first message; every accepted message is received as an equal value with its descriptors.",
+   "Empty payloads are outside the domain (Go's WriteMsgUnix sends a dummy byte; an empty SOCK_SEQPACKET packet is indistinguishable from EOF). One open finding is routed around (KNOWN_FINDINGS.json: first use of a gob type being oversize).",
+   "stateful / model-based property testing (rapid) with a queue model; round-trip oracle", "§3 C19")
+
 NOT_YET = {}
 
 def main():
